@@ -103,6 +103,187 @@ def gen_leading_text(rng):
     return digits + rng.choice(['', 'H2O', ' H2O', 'x', '.5', 'H2O7', '\n3', '+3', 'e'])
 
 
+# --------------------------------------------------------------------------- independent evaluator (no chempy, reference symbol table)
+_WS = ' \t\n\r'
+_SYMS = sorted(fg.SYMBOLS, key=len, reverse=True)
+_STATES = ('(s)', '(l)', '(g)', '(aq)', '(cr)')
+_CNT = re.compile(r'[0-9]+\.[0-9]+|[0-9]*')
+_CLOSER = {'(': ')', '[': ']', '{': '}'}
+
+
+def _skip(s, i):
+    while i < len(s) and s[i] in _WS:
+        i += 1
+    return i
+
+
+def _tail(s, i):
+    """count? state? marks? after an element / closing bracket / cage body -> (multiplier, position)"""
+    j = _skip(s, i)
+    m = _CNT.match(s, j)
+    n = Fraction(m.group()) if m.group() else Fraction(1)
+    i = m.end()                       # position after the (possibly empty) count; the blanks before it are consumed
+    j = _skip(s, i)
+    for st in _STATES:
+        if s.startswith(st, j):
+            i = j + len(st)
+            break
+    j = _skip(s, i)
+    k = j
+    while k < len(s) and s[k] in "*'":
+        k += 1
+    if k > j:
+        i = k
+    return n, i
+
+
+def _merge(pairs):
+    d = {}
+    for k, v in pairs:
+        d[k] = d.get(k, 0) + v
+    return list(d.items())
+
+
+def _term(s, i):
+    j = _skip(s, i)
+    for sym in _SYMS:
+        if s.startswith(sym, j):
+            n, k = _tail(s, j + len(sym))
+            return [(fg.SYMBOLS.index(sym) + 1, n)], k
+    if j < len(s) and (s[j] in _CLOSER or s[j] == '@'):
+        r = _terms(s, j + 1)
+        if r is None:
+            return None
+        body, k = r
+        if s[j] != '@':
+            k = _skip(s, k)
+            if k >= len(s) or s[k] != _CLOSER[s[j]]:
+                return None
+            k += 1
+        n, k = _tail(s, k)
+        return [(z, v * n) for z, v in body], k
+    return None
+
+
+def _terms(s, i):
+    """one or more terms, greedy; summed per element in order of first occurrence"""
+    out = []
+    while True:
+        r = _term(s, i)
+        if r is None:
+            break
+        out.extend(r[0])
+        i = r[1]
+    return (_merge(out), i) if out else None
+
+
+def spec_stoich(part):
+    if part == 'e':
+        return []
+    r = _terms(part, 0)
+    if r is None or _skip(part, r[1]) != len(part):
+        return None
+    return r[0]
+
+
+def spec_parts(s, prefixes=None, suffixes=None):
+    """independent re-statement of `_formula_to_parts`: [stoich, charge token | None, dropped prefixes, dropped suffixes] | 'ValueError'"""
+    dp, ds = [], []
+    for p in (fg.PREFIXES if prefixes is None else prefixes):
+        if s.startswith(p):
+            dp.append(p)
+            s = s[len(p):]
+    for p in (fg.SUFFIXES if suffixes is None else suffixes):
+        if s.endswith(p):
+            ds.append(p)
+            s = s[:len(s) - len(p)] if p else ''        # Python: formula[:-0] == ''
+    if '/' in s:
+        return 'ValueError'
+    for tok in '+-':
+        if tok in s:
+            if s.count(tok) > 1:
+                return 'ValueError'
+            a, b = s.split(tok)
+            return [a, tok + b, dp, ds[::-1]]
+    return [s, None, dp, ds[::-1]]
+
+
+def spec_eval(s, prefixes=None, suffixes=None):
+    """independent evaluation of a written formula: ordered list [(key, Fraction)] | 'reject'"""
+    pts = spec_parts(s, prefixes, suffixes)
+    if pts == 'ValueError':
+        return 'reject'
+    stoich, chg = pts[0], pts[1]
+    parts = stoich.split('·') if '·' in stoich else stoich.split('..')
+    tot = {}
+    for i, part in enumerate(parts):
+        m = 1
+        if i:
+            mm = re.match(r'[0-9]+', part)
+            if mm:
+                m, part = int(mm.group()), part[mm.end():]
+        comp = spec_stoich(part)
+        if comp is None:
+            return 'reject'
+        for k, v in comp:
+            tot[k] = tot.get(k, 0) + m * v
+    if chg is not None:
+        q = charge_spec(chg)
+        if q == 'ValueError':
+            return 'reject'
+        tot[0] = Fraction(int(q))
+    return [(k, Fraction(v)) for k, v in tot.items()]
+
+
+def value_mismatch(got, want, tol):
+    """real dict vs the evaluator's ordered list (exact when every amount is an integer below 2**53, else relative tolerance)"""
+    if list(got) != [k for k, _ in want]:
+        return 'has keys %s (in this order), the written text has %s' % (list(got), [k for k, _ in want])
+    for k, v in want:
+        g = got[k]
+        if isinstance(g, bool) or not isinstance(g, (int, float)):
+            return '[%d] is a %s' % (k, type(g).__name__)
+        if v.denominator == 1 and abs(v) < 2 ** 53 and isinstance(g, int):
+            if g != v:
+                return '[%d] = %r, written amount is %s' % (k, g, v)
+        elif not close(g, v, tol, 0.0):
+            return '[%d] = %r, written amount is %s' % (k, g, v)
+    return None
+
+
+def long_decimal(rng):
+    """decimal count text with 5-12 decimals: close to an integer from below / above, close to zero, a third, or arbitrary"""
+    d = rng.randint(5, 12)
+    kind = rng.choice(['below', 'above', 'zero', 'third', 'random', 'random'])
+    k = rng.choice([0, 0, 1, 1, 2, 3, 7, 11])
+    if kind == 'below':
+        return '%d.%s' % (k, '9' * d)
+    if kind == 'above':
+        return '%d.%s1' % (k, '0' * (d - 1))
+    if kind == 'zero':
+        return '0.%s%d' % ('0' * (d - 1), rng.randint(1, 9))
+    if kind == 'third':
+        return '%d.%s' % (k, rng.choice(['3' * d, '6' * (d - 1) + '7', '1' + '6' * (d - 2) + '7', '9' * (d - 1) + '5']))
+    return '%d.%s%d' % (k, ''.join(rng.choice('0123456789') for _ in range(d - 1)), rng.randint(1, 9))
+
+
+def sharpen_decimals(rng, f):
+    """give some counts of the AST many decimals (also on groups, so that products come close to integers)"""
+    def walk(ts):
+        for t in ts:
+            if t['t'] != 'cage' and rng.random() < 0.4:
+                t['cnt'] = ['dec', long_decimal(rng)]
+            if t['t'] != 'el':
+                walk(t['body'])
+    for p in f['parts']:
+        walk(p['terms'])
+        if rng.random() < 0.3:        # (X0.3333333 Y..)3 : a product close to an integer
+            d = rng.randint(5, 12)
+            body = [{'t': 'el', 'z': rng.randint(1, 118), 'cnt': ['dec', '0.' + '3' * d], 'state': '', 'marks': ''}]
+            p['terms'].insert(0, {'t': 'grp', 'br': rng.choice('([{'), 'body': body, 'cnt': ['int', 3], 'state': '', 'marks': ''})
+    return f
+
+
 # --------------------------------------------------------------------------- canonical text
 def show_comp_exact(comp):
     return ' '.join('%d:%s' % (k, show_rat(v)) for k, v in comp.items())
@@ -155,13 +336,13 @@ _REAL = {}
 
 
 def real_dicts(s):
-    """[dict | exception class name] of formula_to_composition(s) and Substance.from_formula(s).composition (memoised per text)"""
+    """[dict | exception class name] of formula_to_composition(s), Substance.from_formula(s).composition, Species.from_formula(s).composition (memoised per text)"""
     r = _REAL.get(s)
     if r is None:
         from chempy.util.parsing import formula_to_composition
-        from chempy import Substance
+        from chempy import Substance, Species
         r = []
-        for fn in (formula_to_composition, lambda x: Substance.from_formula(x).composition):
+        for fn in (formula_to_composition, lambda x: Substance.from_formula(x).composition, lambda x: Species.from_formula(x).composition):
             try:
                 r.append(fn(s))
             except Exception as e:
@@ -224,6 +405,22 @@ def mutate(rng, s):
     if r < 0.95:
         return s[:i] + rng.choice(ALPHABET) + s[i + 1:]
     return s[:i] + rng.choice(['/', '/2+', '..', '·', '....', '@', 'e', '.']) + s[i:]
+
+
+def gen_parse_with(rng, s):
+    """formula_to_composition with non-default prefixes / suffixes, or Species.from_formula with non-default phases"""
+    pool_s = ['(s)', '(l)', '(g)', '(aq)', '(cr)', '(am)', ')', '2']
+    if rng.random() < 0.4:
+        phases = rng.sample(['(s)', '(l)', '(g)', '(cr)', '(am)'], rng.randint(0, 3))
+        core = strip_affixes(s)
+        t = ''.join(rng.sample(fg.PREFIXES, rng.choice([0, 0, 1]))) + core + rng.choice([''] + phases + ['(aq)', '(s)'])
+        return {'op': 'parse_with', 's': t, 'prefixes': None, 'suffixes': phases + ['(aq)'], 'phases': phases}
+    prefixes = None if rng.random() < 0.3 else rng.sample(fg.PREFIXES + ['x-', 'n-', '', 'Fe'], rng.randint(0, 4))
+    suffixes = rng.sample(pool_s + ([''] if rng.random() < 0.1 else []), rng.randint(0, 4))
+    core = strip_affixes(s)
+    t = ''.join(rng.sample(prefixes or fg.PREFIXES, rng.choice([0, 1, 1, 2]) if (prefixes is None or len(prefixes) >= 2) else 0)) + core \
+        + ''.join(rng.sample(suffixes, rng.choice([0, 1, 1, 2]) if len(suffixes) >= 2 else 0))
+    return {'op': 'parse_with', 's': t, 'prefixes': prefixes, 'suffixes': suffixes}
 
 
 def gen_history(rng):
@@ -343,7 +540,12 @@ class C01(Property):
                 continue
             f = fg.gen_formula(rng, max_depth=depth if rng.random() < 0.5 else rng.randint(0, depth))
             s = fg.render(f)
-            if r < 0.55:
+            if r < 0.14:
+                f = sharpen_decimals(rng, f)
+                cases.append({'op': 'roundtrip', 'src': 'longdec', 'ast': f})
+            elif r < 0.18:
+                cases.append(gen_parse_with(rng, s))
+            elif r < 0.55:
                 cases.append({'op': 'roundtrip', 'src': 'gen', 'ast': f})
             elif r < 0.63:
                 t = insert_ws(rng, s)
@@ -365,20 +567,45 @@ class C01(Property):
             return None
         if c['op'] == 'roundtrip':
             return {'op': 'roundtrip', 'ast': c['ast']}
+        if c['op'] == 'parse_with':
+            m = {'op': 'parse_with', 's': c['s'], 'suffixes': c['suffixes']}
+            if c.get('prefixes') is not None:
+                m['prefixes'] = c['prefixes']
+            if c.get('phases') is not None:
+                m['phases'] = c['phases']
+            return m
         return {'op': c['op'], 's': c['s']}
 
     def impl(self, c):
         op = c['op']
         if op == 'roundtrip':       # Python spec (render, denotation) + the real parsers on the rendered text
             s = fg.render(c['ast'])
-            a, b = run_real(s)
-            if a != b:
-                return '!formula_to_composition=%s but Substance.from_formula=%s' % (a, b)
+            a, b, b2 = run_real(s)
+            if a != b or a != b2:
+                return '!formula_to_composition=%s but Substance.from_formula=%s, Species.from_formula=%s' % (a, b, b2)
             return s + '\t' + show_comp_exact(fg.composition(c['ast'])) + '\t' + a
         if op == 'parse':
-            a, b = run_real(c['s'])
-            if canon_exc(a) != canon_exc(b):
-                return '!formula_to_composition=%s but Substance.from_formula=%s' % (a, b)
+            a, b, b2 = run_real(c['s'])
+            if canon_exc(a) != canon_exc(b) or canon_exc(a) != canon_exc(b2):
+                return '!formula_to_composition=%s but Substance.from_formula=%s, Species.from_formula=%s' % (a, b, b2)
+            return a
+        if op == 'parse_with':
+            from chempy.util.parsing import formula_to_composition
+            from chempy import Species
+            kw = {'suffixes': tuple(c['suffixes'])}
+            if c.get('prefixes') is not None:
+                kw['prefixes'] = list(c['prefixes'])
+            try:
+                a = show_comp_impl(formula_to_composition(c['s'], **kw))
+            except Exception as e:
+                a = exc_name(e)
+            if c.get('phases') is not None:       # Species.from_formula(s, phases) must be formula_to_composition(s, suffixes=phases + ("(aq)",))
+                try:
+                    b = show_comp_impl(Species.from_formula(c['s'], phases=tuple(c['phases'])).composition)
+                except Exception as e:
+                    b = exc_name(e)
+                if canon_exc(a) != canon_exc(b):
+                    return '!formula_to_composition(suffixes=%r)=%s but Species.from_formula(phases=%r)=%s' % (c['suffixes'], a, c['phases'], b)
             return a
         if op == 'charge':
             from chempy.util.parsing import _get_charge
@@ -421,9 +648,9 @@ class C01(Property):
                 return json.loads(io) == json.loads(mo)
             except Exception:
                 return False
-        if op == 'parse':
+        if op in ('parse', 'parse_with'):
             if io in REJECT or mo in REJECT:
-                return canon_exc(io) == canon_exc(mo)
+                return io == mo                   # formula_to_composition alone: the exception class must agree exactly
             return comp_same(io, mo, self.float_tol)
         if op == 'roundtrip':
             i3, m3 = io.split('\t'), mo.split('\t')
@@ -432,7 +659,7 @@ class C01(Property):
             if i3[0] != m3[0] or i3[1] != m3[1]:          # render and denotation: exact text
                 return False
             if i3[2] in REJECT or m3[2] in REJECT:
-                return canon_exc(i3[2]) == canon_exc(m3[2])
+                return i3[2] == m3[2]
             return comp_same(i3[2], m3[2], self.float_tol)
         return False
 
@@ -444,7 +671,7 @@ class C01(Property):
             f = c['ast']
             s = fg.render(f)
             want = fg.composition(f)
-            for name, got in zip(('formula_to_composition', 'Substance.from_formula'), self._real_dicts(s)):
+            for name, got in zip(('formula_to_composition', 'Substance.from_formula', 'Species.from_formula'), self._real_dicts(s)):
                 if not isinstance(got, dict):
                     return '%s(%r) raised %s; the formula is well-formed' % (name, s, got)
                 if set(got) != set(want):
@@ -480,10 +707,48 @@ class C01(Property):
             return None
         if c['op'] == 'parse':
             cls = ill_classes(c['s'])
-            if cls:
-                for name, got in zip(('formula_to_composition', 'Substance.from_formula'), self._real_dicts(c['s'])):
-                    if isinstance(got, dict):
-                        return '%s(%r) returned %r although the text is ill-formed (%s)' % (name, c['s'], got, ', '.join(cls))
+            want = spec_eval(c['s'])              # independent evaluator: value claim for EVERY text, accepted or not
+            for name, got in zip(('formula_to_composition', 'Substance.from_formula', 'Species.from_formula'), self._real_dicts(c['s'])):
+                if cls and isinstance(got, dict):
+                    return '%s(%r) returned %r although the text is ill-formed (%s)' % (name, c['s'], got, ', '.join(cls))
+                if isinstance(got, dict) and want == 'reject':
+                    return '%s(%r) returned %r although the text is not a formula of the supported notation' % (name, c['s'], got)
+                if not isinstance(got, dict) and want != 'reject':
+                    return '%s(%r) raised %s; the text reads as %s' % (name, c['s'], got, show_comp_exact(dict(want)))
+                if isinstance(got, dict):
+                    m = value_mismatch(got, want, self.float_tol)
+                    if m:
+                        return '%s(%r) %s' % (name, c['s'], m)
+            return None
+        if c['op'] == 'parse_with':
+            from chempy.util.parsing import formula_to_composition
+            want = spec_eval(c['s'], c.get('prefixes'), c['suffixes'])
+            kw = {'suffixes': tuple(c['suffixes'])}
+            if c.get('prefixes') is not None:
+                kw['prefixes'] = list(c['prefixes'])
+            try:
+                got = formula_to_composition(c['s'], **kw)
+            except Exception as e:
+                got = exc_name(e)
+            label = 'formula_to_composition(%r, prefixes=%r, suffixes=%r)' % (c['s'], c.get('prefixes'), c['suffixes'])
+            if isinstance(got, dict) != (want != 'reject'):
+                return '%s gave %r, the text reads as %r' % (label, got, want if want == 'reject' else show_comp_exact(dict(want)))
+            if isinstance(got, dict):
+                m = value_mismatch(got, want, self.float_tol)
+                if m:
+                    return '%s %s' % (label, m)
+            return None
+        if c['op'] == 'parts':
+            from chempy.util.parsing import _formula_to_parts, _latex_mapping
+            want = spec_parts(c['s'])
+            try:
+                r = _formula_to_parts(c['s'], _latex_mapping.keys(), ('(s)', '(l)', '(g)', '(aq)'))
+                got = [r[0], r[1], list(r[2]), list(r[3])]
+            except Exception as e:
+                got = exc_name(e)
+            if got != want:
+                return '_formula_to_parts(%r) gave %r, expected %r' % (c['s'], got, want)
+            return None
         return None
 
     def _history(self, c):
@@ -587,6 +852,8 @@ class C01(Property):
             f = c['ast']
             return 'ast:%s:depth%d%s%s%s%s' % (c.get('src', 'gen'), fg.depth(f), ':dec' if fg.has_decimal(f) else '', ':chg' if f['charge'] else '',
                                                ':hyd' if len(f['parts']) > 1 else '', ':affix' if (f['prefixes'] or f['suffix']) else '')
+        if c['op'] == 'parse_with':
+            return 'parse_with:' + ('species-phases' if c.get('phases') is not None else 'prefixes-suffixes')
         if c['op'] == 'charge':
             return 'charge:' + ('accepted' if charge_spec(c['s']) != 'ValueError' else 'refused')
         if c['op'] == 'parse':
@@ -595,7 +862,7 @@ class C01(Property):
         return c['op']
 
     def nontrivial(self, c):
-        if c.get('kind') == 'history' or c.get('op') in ('charge', 'leading_int'):
+        if c.get('kind') == 'history' or c.get('op') in ('charge', 'leading_int', 'parse_with'):
             return True
         s = fg.render(c['ast']) if c['op'] == 'roundtrip' else c.get('s', '')
         return len(s) >= 2
